@@ -1,4 +1,4 @@
-CONSTANT StepLimit = 20000
+CONSTANT StepLimit = 3000
 SPECIFICATION Spec
 VIEW View
 INVARIANT PosInRangeInv
